@@ -24,13 +24,13 @@ SPEC = {
              'order), (c) seeded call sequences of up to 400 calls in one process without clearing, (d) 8 threads running seeded '
              'permutations with a 1 microsecond switch interval and a sys.monitoring LINE callback that yields the GIL inside '
              'wcmatch code. Compiled matchers are compared for ==/hash (built twice), agreement when equal, pickle / copy / '
-             'deepcopy round trips, immutability and 1st-vs-1000th use. A case is one call in one history; it is non-trivial when '
+             'deepcopy round trips, pickles produced by two other interpreters (PYTHONHASHSEED 1 and 2) compared for ==/hash/set membership/answers with the matcher built here, immutability and 1st-vs-1000th use. A case is one call in one history; it is non-trivial when '
              'the call\'s pattern text occurs in the pool under at least two different flag sets or types.'),
     'bounds': {'quick': {'pool': '~1000 calls', 'sequences_per_shard': 6, 'thread_rounds_per_shard': 2, 'fresh_interpreter_calls_per_shard': 12},
                'thorough': {'sequences': 'until the time budget', 'thread_rounds_per_shard': 12, 'fresh_interpreter_calls_per_shard': 60}},
     'floor': {'quick': 20000, 'thorough': 200000},
     'required_counters': ['sequence_calls', 'thread_calls', 'fresh_interpreter_calls', 'cache_hits_seen', 'cache_evictions_seen',
-                          'forced_yields', 'matcher_object_checks', 'distinct_interleavings', 'matcher_reuse_fs_checks'],
+                          'forced_yields', 'matcher_object_checks', 'distinct_interleavings', 'matcher_reuse_fs_checks', 'cross_interpreter_pickles'],
     'budget': {'quick': 45, 'thorough': 480},
     'shard_timeout': {'quick': 400, 'thorough': 1500},
     'assumptions': ['CPython\'s GIL hides most data races; what can be exposed is logical sharing (module-level parser state, a cache '
@@ -282,6 +282,75 @@ def matcher_objects(ctx, pool, rng):
     ctx.mark_nontrivial('matcher-objects')
 
 
+def pickle_main(argv):
+    """Entry point of a producer interpreter: compile the matchers of the given call ids and print their pickles."""
+    import base64
+    seed, ids = int(argv[0]), [int(x) for x in argv[1].split(',')]
+    env.import_wcmatch()
+    pool = build_pool(seed)
+    out = {}
+    for i in ids:
+        c = pool[i]
+        mod = F if c['api'].startswith('fnmatch') else G
+        try:
+            m = mod.compile(enc(c['pat'], c['bytes']), flags=flags_of(c['flags']))
+            out[i] = base64.b64encode(pickle.dumps(m)).decode()
+        except Exception as e:  # noqa: BLE001
+            out[i] = None
+    json.dump(out, sys.stdout)
+    return 0
+
+
+def pickles_across_interpreters(ctx, pool, rng):
+    """A matcher pickled by another interpreter (other string-hash seed, other object addresses) is the same value as one built
+    here from the same arguments: equal, hash-equal, found in sets/dicts keyed by the local one, same answers."""
+    import base64
+    cands = [c for c in pool if c['api'].endswith('compile.filter') or c['api'].endswith('.match')]
+    sample = rng.sample(cands, min(40, len(cands)))
+    ids = [c['id'] for c in sample]
+    for hashseed in ('1', '2'):
+        cmd = [sys.executable, '-m', 'wcverif.checks.c19', '--pickle', str(ctx.seed), ','.join(map(str, ids))]
+        e = dict(os.environ, PYTHONHASHSEED=hashseed, PYTHONDONTWRITEBYTECODE='1', PYTHONPATH=env.VERIF + os.pathsep + env.REPO)
+        r = subprocess.run(cmd, cwd=env.VERIF, env=e, capture_output=True, timeout=300)
+        if r.returncode != 0:
+            ctx.note('pickle producer failed: ' + r.stderr.decode()[-300:])
+            return
+        got = json.loads(r.stdout.decode())
+        for c in sample:
+            blob = got.get(str(c['id']))
+            if blob is None:
+                continue
+            mod = F if c['api'].startswith('fnmatch') else G
+            try:
+                local = mod.compile(enc(c['pat'], c['bytes']), flags=flags_of(c['flags']))
+            except Exception:  # noqa: BLE001
+                continue
+            wit = {'call': c, 'producer_PYTHONHASHSEED': hashseed, 'mode': 'pickle-across-interpreters'}
+            ctx.evals()
+            ctx.count('cross_interpreter_pickles')
+            try:
+                m = pickle.loads(base64.b64decode(blob))
+                names = enc(NAMES, c['bytes'])
+                problems = []
+                if not (m == local) or (m != local):
+                    problems.append('not equal to the locally built matcher')
+                if hash(m) != hash(local):
+                    problems.append('hash differs from the locally built matcher')
+                if m not in {local} or {local: 1}.get(m) != 1:
+                    problems.append('not found in a set / dict keyed by the locally built matcher')
+                if [m.match(n) for n in names] != [local.match(n) for n in names]:
+                    problems.append('answers differ')
+                m2 = pickle.loads(pickle.dumps(m))
+                if not (m2 == m and hash(m2) == hash(m)):
+                    problems.append('second round trip changes value')
+            except Exception as e2:  # noqa: BLE001
+                problems = ['unpickling raised ' + repr(e2)[:120]]
+            if problems:
+                ctx.disagree('a matcher pickled by another interpreter is not the value built here from the same arguments: ' + problems[0],
+                             dict(wit, problems=problems))
+                return
+
+
 def matcher_reuse_across_fs(ctx):
     """A compiled REALPATH matcher is a pure function of (its arguments, the file system): reusing one object while the
     file system, the working directory or the directory behind a dir_fd changes must give the answers of a fresh call."""
@@ -494,12 +563,20 @@ def run(ctx):
         ctx.count('distinct_interleavings', len(signatures))
         # ---- matcher objects --------------------------------------------------------------------------------------
         matcher_objects(ctx, pool, ctx.rng_for('mo', ctx.shard))
+        pickles_across_interpreters(ctx, pool, ctx.rng_for('px', ctx.shard))
         if ctx.shard == 0:
             ctx.sample({'pool_size': len(pool), 'distinct_texts': len(texts), 'example_calls': pool[:3],
                         'texts_under_several_flag_sets': sum(1 for v in texts.values() if len(v) > 1)})
 
 
 def replay(ctx, w):
+    if w.get('mode') == 'pickle-across-interpreters':
+        pool = build_pool(ctx.seed)
+        for sh in range(16):
+            pickles_across_interpreters(ctx, pool, random.Random(sh))
+            if ctx.violations:
+                break
+        return ctx.violations or None
     if 'call' not in w:
         pool = build_pool(0)
         matcher_objects(ctx, pool, random.Random(0))
@@ -545,3 +622,7 @@ if __name__ == '__main__':
         import warnings
         warnings.simplefilter('ignore')
         sys.exit(fresh_main(sys.argv[2:]))
+    if len(sys.argv) > 1 and sys.argv[1] == '--pickle':
+        import warnings
+        warnings.simplefilter('ignore')
+        sys.exit(pickle_main(sys.argv[2:]))
